@@ -78,7 +78,8 @@ def backpressure(ctx: Ctx) -> None:
 
     res = ctx.res
     psk = bytes(range(5, 37))
-    for j, (framing, n_cmds, chunk) in enumerate((("plain", 40, 700), ("noise", 40, 700), ("noise", 200, 90), ("plain", 12, 30000), ("noise", 12, 30000))):
+    for j, (framing, n_cmds, chunk) in enumerate((("plain", 40, 700), ("noise", 40, 700), ("noise", 200, 90), ("plain", 12, 30000), ("noise", 12, 30000),
+                                                   ("noise", 120, 40000), ("plain", 120, 40000))):   # (the last two queue well over 1 MiB)
         if not ctx.mine(100 + j):
             continue
         with Sim() as sim:
@@ -94,23 +95,39 @@ def backpressure(ctx: Ctx) -> None:
             n0 = len(dconn.received)
             dconn.sock.send_fault = "block"
             sent: list[tuple[str, bytes]] = []
+            refused = 0
             for k in range(n_cmds):
-                if k % 3 == 0:
-                    data = bytes((k * 7 + i) % 251 for i in range(chunk + k))
-                    cli.send_voice_assistant_audio(data)
-                    sent.append(("VoiceAssistantAudio", pb.VoiceAssistantAudio(data=data).SerializeToString()))
-                elif k % 3 == 1:
-                    cli.switch_command(k, bool(k % 2))
-                    sent.append(("SwitchCommandRequest", pb.SwitchCommandRequest(key=k, state=bool(k % 2)).SerializeToString()))
-                else:
-                    cli.text_command(k, "t" * (k % 50))
-                    sent.append(("TextCommandRequest", pb.TextCommandRequest(key=k, state="t" * (k % 50)).SerializeToString()))
+                # a send that the library REFUSES (raises) while the device is not reading is the library's choice: that message is then
+                # simply not part of what was sent - but everything it accepted must still decode, in order, under consecutive nonces
+                try:
+                    if k % 3 == 0:
+                        data = bytes((k * 7 + i) % 251 for i in range(chunk + k))
+                        cli.send_voice_assistant_audio(data)
+                        sent.append(("VoiceAssistantAudio", pb.VoiceAssistantAudio(data=data).SerializeToString()))
+                    elif k % 3 == 1:
+                        cli.switch_command(k, bool(k % 2))
+                        sent.append(("SwitchCommandRequest", pb.SwitchCommandRequest(key=k, state=bool(k % 2)).SerializeToString()))
+                    else:
+                        cli.text_command(k, "t" * (k % 50))
+                        sent.append(("TextCommandRequest", pb.TextCommandRequest(key=k, state="t" * (k % 50)).SerializeToString()))
+                except Exception:  # noqa: BLE001
+                    refused += 1
                 if k % 5 == 0:
                     sim.run_for(0.001)
+            res.count("S/back-pressure/sends_refused_by_the_library", refused)
             sim.run_for(0.05)
             got_while_blocked = len(dconn.received) - n0
             dconn.sock.send_fault = None
             sim.run_for(0.5)
+            # the device is reading again: what the client sends now continues the same stream
+            if sim.conns and sim.conns[0].obj.is_connected:
+                for k in range(5):
+                    try:
+                        cli.switch_command(900 + k, True)
+                        sent.append(("SwitchCommandRequest", pb.SwitchCommandRequest(key=900 + k, state=True).SerializeToString()))
+                    except Exception:  # noqa: BLE001
+                        refused += 1
+                sim.run_for(0.1)
             got = [(r["name"], r["payload"]) for r in dconn.received[n0:]]
             res.evaluations += 1
             res.count(f"S/back-pressure/{framing}")
